@@ -24,9 +24,9 @@ func init() { kinds["c05goal"] = runC05Goal }
 // C05GoalP is the payload of a c05goal case.
 type C05GoalP struct {
 	Setup  []string     `json:"setup,omitempty"`  // Exec'ed first (errors recorded)
-	Name   string       `json:"name,omitempty"`   // predicate name (Via direct|call)
+	Name   string       `json:"name,omitempty"`   // predicate name (Via direct|call|catch)
 	Args   []*term.Term `json:"args,omitempty"`   // argument shapes; '$c05'(Gen, N) markers are expanded here
-	Via    string       `json:"via"`              // direct: verif_in(0,V0),…,'p'(V0,…)  call: verif_in(0,G), call(G)  text: Text as is
+	Via    string       `json:"via"`              // direct: verif_in(0,V0),…,'p'(V0,…)  call: verif_in(0,G), call(G)  catch: verif_in(0,G), catch(G,_,true)  text: Text as is
 	Text   string       `json:"text,omitempty"`   // Via text: the query (verif_in(I,_) may refer to Args)
 	Max    int          `json:"max,omitempty"`    // answers pulled (default 5)
 	Budget int64        `json:"budget,omitempty"` // trampoline steps before the context is cancelled
@@ -102,6 +102,9 @@ func runC05Goal(c *proto.Case) *proto.Result {
 	case "call":
 		s.inputs = []engine.Term{engine.NewAtom(p.Name).Apply(args...)}
 		q.WriteString("verif_in(0, G), call(G).")
+	case "catch":
+		s.inputs = []engine.Term{engine.NewAtom(p.Name).Apply(args...)}
+		q.WriteString("verif_in(0, G), catch(G, _, true).")
 	case "text":
 		s.inputs = args
 		q.WriteString(p.Text)
